@@ -11,11 +11,14 @@ import (
 	"github.com/jamf/regatta/storage/table/fsm"
 	sm "github.com/lni/dragonboat/v4/statemachine"
 
+	"github.com/jamf/regatta/verifvp/vp"
+
 	. "verif/harness/cmdx"
 	"verif/harness/evid"
 	"verif/harness/fsmx"
 	"verif/harness/par"
 	"verif/harness/refkv"
+	"verif/harness/sched"
 )
 
 var wild = []byte{0}
@@ -376,7 +379,7 @@ func Run(r *evid.Run) {
 		}
 		add(c2, 1)
 	}
-	r.Rule(fmt.Sprintf("transactions = predicate lists (0..2 of %d predicates: existence / EQUAL / NOT_EQUAL / GREATER / LESS on present, missing, empty-valued keys and on non-empty and empty ranges) x success/failure lists (<= 2 operations per branch from %d operations: single and range reads with limit/count, puts with and without prev_kv, single and range deletes with flags; quick: <= 2 operations in total, thorough: <= 3) x %d pre-states x 4 embedding positions in an apply call {alone, after a put, after a range delete, followed by a put}; executed chained on live real FSMs (state restored by a real batch) and compared with the model: succeeded flag, n-th response for n-th op, state afterwards, applied index; read-only transactions additionally through FSM.Lookup(TxnRequest). A failing case is re-run alone on a fresh FSM. Non-trivial: the transaction returned a response or changed state; distinct = distinct (responses, state-after) renderings", len(preds), len(ops), len(preStates)))
+	r.Rule(fmt.Sprintf("transactions = predicate lists (0..2 of %d predicates: existence / EQUAL / NOT_EQUAL / GREATER / LESS on present, missing, empty-valued keys and on non-empty and empty ranges) x success/failure lists (<= 2 operations per branch from %d operations: single and range reads with limit/count, puts with and without prev_kv, single and range deletes with flags; quick: <= 2 operations in total, thorough: <= 3) x %d pre-states x 4 embedding positions in an apply call {alone, after a put, after a range delete, followed by a put}; executed chained on live real FSMs (state restored by a real batch) and compared with the model: succeeded flag, n-th response for n-th op, state afterwards, applied index; read-only transactions additionally through FSM.Lookup(TxnRequest). A failing case is re-run alone on a fresh FSM. Atomic visibility: an updater applying a transaction (alone / after a put in the same call / with range delete + put) against a reader doing two full-range lookups, scheduling point before every statement, all interleavings up to the preemption bound. Non-trivial: the transaction returned a response or changed state; distinct = distinct (responses, state-after) renderings", len(preds), len(ops), len(preStates)))
 	r.Extra("units", len(units))
 	const chunk = 8
 	nchunks := int64((len(units) + chunk - 1) / chunk)
@@ -434,7 +437,8 @@ func Run(r *evid.Run) {
 	mc := Case{Pre: 7, Pos: 2, Cmp: mid.cmp, Succ: mid.succ, Fail: mid.fail}
 	mc.Desc = fsmx.CmdStr(mc.txn(preds, ops))
 	r.Sample(mc)
-	r.Assume("durable atomicity of a transaction under crashes is decided by C04; visibility to concurrent readers relies on pebble's atomic batch commit (single Commit call per apply call, checked structurally by C04's partial-batch oracle)")
+	runVisibility(r)
+	r.Assume("durable atomicity of a transaction under crashes is decided by C04; visibility to concurrent readers is explored at statement granularity of regatta's code (scheduling point before every statement of Update/handleTxn/handleTxnOps/EnsureIndexed/Commit and of the read path, up to the preemption bound in visibility_preemption_bound); pebble's own batch commit runs atomically between two points")
 }
 
 func Replay(raw json.RawMessage) (string, bool) {
@@ -448,4 +452,117 @@ func Replay(raw json.RawMessage) (string, bool) {
 		fmt.Fprintf(&sb, "%s: %s\n", v.sig, v.detail)
 	}
 	return sb.String(), len(vs) == 0
+}
+
+// ---------------------------------------------------------------------------------------------
+// Atomic visibility at statement granularity: one updater applies a two-put transaction (alone, and
+// preceded by a plain put in the same apply call), one reader performs two full-range lookups; a
+// scheduling point before every statement of Update, handleTxn, handleTxnOps, EnsureIndexed, Commit
+// and of the read path (build overlay); all interleavings up to a preemption bound. Every read must
+// equal the state at an entry boundary of the call (in log order) - never part of a transaction.
+
+func runVisibility(r *evid.Run) {
+	bound := 2
+	if r.Thorough() {
+		bound = 3
+	}
+	vp.Hook = func(label string) {
+		if t := sched.Cur(); t != nil {
+			t.Point(label)
+		}
+	}
+	defer func() { vp.Hook = nil }()
+	for _, variant := range []string{"txn-alone", "put-then-txn-in-one-call", "txn-with-delete-and-put"} {
+		var inst *fsmx.Inst
+		var reads []string
+		var updErr string
+		pre, post := "", ""
+		var allowed []string // states at entry boundaries, in log order (entries are separate commands: a reader may see a prefix of the call's entries, never part of a transaction)
+		mk := func() sched.Scenario {
+			if inst != nil {
+				inst.Close()
+			}
+			env := fsmx.NewEnv()
+			var err error
+			inst, _, err = env.Open("t", 10001, fsm.RecoveryTypeSnapshot)
+			if err != nil {
+				panic(err)
+			}
+			_, _ = inst.Update([]sm.Entry{fsmx.Entry(1, PutBatch("k", "old", "z", "old"))})
+			reads, updErr = nil, ""
+			var ents []sm.Entry
+			switch variant {
+			case "txn-alone":
+				ents = []sm.Entry{fsmx.Entry(2, Txn(nil, Ops(OpPut("x", "1", false), OpPut("y", "1", false)), nil))}
+				pre, post = `["k"="old" "z"="old"]`, `["k"="old" "x"="1" "y"="1" "z"="old"]`
+				allowed = []string{pre, post}
+			case "put-then-txn-in-one-call":
+				ents = []sm.Entry{fsmx.Entry(2, Put("w", "1", false)), fsmx.Entry(3, Txn(Cmps(Exists("w", nil)), Ops(OpPut("x", "1", true), OpPut("y", "1", false)), nil))}
+				pre, post = `["k"="old" "z"="old"]`, `["k"="old" "w"="1" "x"="1" "y"="1" "z"="old"]`
+				allowed = []string{pre, `["k"="old" "w"="1" "z"="old"]`, post}
+			case "txn-with-delete-and-put":
+				ents = []sm.Entry{fsmx.Entry(2, Txn(Cmps(Exists("k", nil)), Ops(OpDel("k", wild, false, true), OpPut("k", "new", false)), nil))}
+				pre, post = `["k"="old" "z"="old"]`, `["k"="new"]`
+				allowed = []string{pre, post}
+			}
+			return sched.Scenario{Key: func() string { return fmt.Sprint(reads, updErr) }, Threads: []func(*sched.T){
+				func(t *sched.T) {
+					if _, err := inst.F.Update(ents); err != nil {
+						updErr = err.Error()
+					}
+				},
+				func(t *sched.T) {
+					for i := 0; i < 2; i++ {
+						res, err := inst.F.Lookup(&regattapb.RequestOp_Range{Key: wild, RangeEnd: wild})
+						if err != nil {
+							reads = append(reads, "error: "+err.Error())
+							continue
+						}
+						reads = append(reads, fsmx.KVs(res.(*regattapb.ResponseOp_Range).Kvs))
+					}
+				},
+			}}
+		}
+		states := map[string]struct{}{}
+		ex := &sched.Explorer{Mk: mk, MaxBound: bound, Stop: r.Expired, Horizon: 100000, States: states,
+			Check: func(x sched.Exec, _ *sched.Scenario) string {
+				cs := map[string]any{"kind": "visibility", "variant": variant, "choices": x.Choices}
+				if x.Diverged != "" {
+					r.Cap("visibility: a replayed prefix diverged: " + x.Diverged)
+					return "diverged"
+				}
+				if x.Deadlock || x.Livelock || x.Panic != "" || updErr != "" {
+					r.Violate("visibility/execution-abnormal/"+variant, fmt.Sprintf("deadlock=%v livelock=%v panic=%s update error=%s", x.Deadlock, x.Livelock, x.Panic, updErr), cs)
+					return "abnormal"
+				}
+				last := 0
+				for i, rd := range reads {
+					at := -1
+					for k, a := range allowed {
+						if a == rd {
+							at = k
+						}
+					}
+					switch {
+					case at < 0:
+						r.Violate("visibility/read-sees-part-of-a-transaction/"+variant, fmt.Sprintf("read %d = %s; states at entry boundaries %v | trace %s", i, rd, allowed, sched.TraceStr(x)), cs)
+					case at < last:
+						r.Violate("visibility/read-goes-back-in-log-order/"+variant, fmt.Sprintf("reads %v | trace %s", reads, sched.TraceStr(x)), cs)
+					default:
+						last = at
+					}
+				}
+				r.Outcome(variant+fmt.Sprint(reads), true)
+				return fmt.Sprint(reads)
+			}}
+		res := ex.Run()
+		if inst != nil {
+			inst.Close()
+			inst = nil
+		}
+		r.AddExtra("visibility_executions", res.Executions)
+		r.AddExtra("visibility_scheduling_decisions", res.Points)
+		r.Part(map[string]any{"scenario": "statement-level visibility: " + variant, "executions": res.Executions, "preemption_bound_completed": res.Bound, "distinct_read_outcomes": len(res.Outcomes), "distinct_states": len(states)})
+	}
+	r.Extra("visibility_preemption_bound", bound)
 }
